@@ -104,6 +104,9 @@ def run(ctx):
             continue
         perms = rec.perms
         case["perms"] = perms
+        if not perms:
+            ctx.mismatch("no permutation was drawn: the estimate must average at least one completed permutation whatever the clock says", case, impl=res)
+            continue
         # the permutations that WOULD be drawn: the model/spec only need those actually drawn
         want, m, cuts = simulate(n_units, exprs, table, null, perms, mean, tol, T, timeout, clock)
         nontriv = (timeout > 0 and m < iterations) or cuts > 0
